@@ -328,18 +328,18 @@ func (tc *treeCase) checkNew(stream string, before, after obs, delivered []*pars
 	for _, id := range ids {
 		c, ok := cand[id]
 		if !ok {
-			tc.r.Violate("C02", "", stream, fmt.Sprintf("change %d became part of the tree but no delivered raw change has that id as the hash of its bytes", tc.chNum(id)), tc.ops)
+			tc.violate(stream, fmt.Sprintf("change %d became part of the tree but no delivered raw change has that id as the hash of its bytes", tc.chNum(id)))
 			continue
 		}
 		if ok, why := tc.authentic(c, env); !ok {
-			tc.r.Violate("C02", "", stream, fmt.Sprintf("change %d (%s) was attached/persisted although %s", tc.chNum(id), c.label, why), tc.ops)
+			tc.violate(stream, fmt.Sprintf("change %d (%s) was attached/persisted although %s", tc.chNum(id), c.label, why))
 			continue
 		}
 		tc.attached[id] = c
 		// persisted bytes must be the authentic bytes
 		if sc, err := tc.store.Get(context.Background(), id); err == nil {
 			if !bytes.Equal(sc.RawChange, c.body) {
-				tc.r.Violate("C02", "", stream, fmt.Sprintf("stored bytes of change %d differ from the authentic bytes", tc.chNum(id)), tc.ops)
+				tc.violate(stream, fmt.Sprintf("stored bytes of change %d differ from the authentic bytes", tc.chNum(id)))
 			}
 		}
 	}
@@ -354,7 +354,7 @@ func (tc *treeCase) checkNew(stream string, before, after obs, delivered []*pars
 		}
 		if c.AclHeadId != p.aclHead || strings.Join(sortedCopy(c.PreviousIds), ",") != strings.Join(sortedCopy(p.prev), ",") ||
 			(c.Identity != nil && !bytes.Equal(c.Identity.Storage(), p.pub)) || !bytes.Equal(c.Signature, p.sig) {
-			tc.r.Violate("C02", "", stream, fmt.Sprintf("in-memory change %d does not carry the fields of its authentic bytes", tc.chNum(c.Id)), tc.ops)
+			tc.violate(stream, fmt.Sprintf("in-memory change %d does not carry the fields of its authentic bytes", tc.chNum(c.Id)))
 		}
 		return true
 	})
